@@ -30,6 +30,14 @@ var (
 // nearby entry of that shape is keyed with it
 const sameIDFinding = "roam-skips-same-id-in-other-collection"
 
+// findings listed by the coordinator's code reading; see notes/C20.md
+const (
+	findStringOrig = "fence-string-old-position-origin"
+	findLiveLate   = "live-roam-evaluated-late"
+)
+
+func active(id string) bool { return ev.KnownActive(id) }
+
 func TestMain(m *testing.M) {
 	var err error
 	srv, err = t38.Start(t38.Opts{})
@@ -154,6 +162,7 @@ type RoamCase struct {
 	// Pre: the first Pre steps run BEFORE the fence and its observers are
 	// created, so the fenced / roam collections already exist at creation time
 	Pre   int     `json:"pre,omitempty"`
+	excl  map[string]int // generator bookkeeping: shapes left out for known findings
 	Steps []RStep `json:"steps"`
 }
 
@@ -204,6 +213,7 @@ type rmodel struct {
 	// sizes of the old / new neighbourhood of the last fenced SET (evidence)
 	lastOldN, lastNewN int
 	boxes              [2]map[string][]float64 // bounding boxes of the extended objects (evidence)
+	strs               [2]map[string]bool      // ids that currently hold a string (no position)
 }
 
 // coveringFar counts extended objects of the roam collection whose bounding
@@ -266,6 +276,34 @@ func (m *rmodel) apply(s RStep) []entry {
 	m.lastOldN, m.lastNewN = 0, 0
 	if m.boxes[0] == nil {
 		m.boxes = [2]map[string][]float64{{}, {}}
+	}
+	if m.strs[0] == nil {
+		m.strs = [2]map[string]bool{{}, {}}
+	}
+	switch s.Op {
+	case "setstr":
+		// a string has no position: it is nobody's neighbour and its SET is not announced
+		delete(m.cols[s.Col], s.ID)
+		delete(m.boxes[s.Col], s.ID)
+		m.strs[s.Col][s.ID] = true
+		return nil
+	case "drop", "pdel":
+		hadStr := len(m.strs[s.Col]) > 0
+		m.strs[s.Col] = map[string]bool{}
+		if s.Op == "drop" && hadStr && len(m.cols[s.Col]) == 0 {
+			if s.Col == 0 {
+				return []entry{{Kind: "drop"}}
+			}
+			return nil
+		}
+	case "del":
+		if m.strs[s.Col][s.ID] {
+			delete(m.strs[s.Col], s.ID)
+			return nil
+		}
+	default:
+		// a geometry SET over a string: no previous position
+		delete(m.strs[s.Col], s.ID)
 	}
 	switch {
 	case s.Op == "drop" || s.Op == "pdel":
@@ -423,7 +461,7 @@ func (g *rgen) add(s RStep) {
 	}
 	switch s.Op {
 	case "redef":
-	case "del", "setex":
+	case "del", "setex", "setstr":
 		delete(g.cols[s.Col], s.ID)
 	case "drop", "pdel":
 		g.cols[s.Col] = map[string]pos{}
@@ -450,15 +488,37 @@ func genRoam(rt *rapid.T, maxSteps int) RoamCase {
 	fleet := fleetIDs
 	baseLat := unif(rt, "lat", -70, 70)
 	baseLon := unif(rt, "lon", -160, 160)
+	strings := !active(findStringOrig) // ids holding a string (then SET to a point) are a known finding's shape
+	if strings && pct(rt, "near-origin") < 5 {
+		// a scene around lat 0 lon 0, where a path "from the origin" would matter
+		baseLat, baseLon = unif(rt, "olat", -0.5, 0.5)*cs.Radius/111195, unif(rt, "olon", -0.5, 0.5)*cs.Radius/111195
+	}
 	base := pos{round8(baseLat), round8(baseLon)}
 
 	// barrier for the live observer (and closing marker for the webhook
 	// stream): SET of a probe object far from everything (no neighbours now or
 	// later, so it does not matter when a live fence evaluates it) followed by
 	// its DEL, which every observer reports with exactly one "del" message.
+	excluded := map[string]int{}
+	cs.excl = excluded
+	// back-to-back writes: in live cases some barriers are left out, so that two
+	// or three writes are pipelined before the live fence is given time to
+	// evaluate the first (the shape of the finding live-roam-evaluated-late;
+	// left out while that finding is listed as known)
+	burstOK := !active(findLiveLate)
+	skips := 0
 	sync := func(always bool) {
 		if !cs.Live && !always {
 			return
+		}
+		if cs.Live && !always {
+			if !burstOK {
+				excluded[findLiveLate]++
+			} else if skips < 2 && pct(rt, "skip-barrier") < 45 {
+				skips++
+				return
+			}
+			skips = 0
 		}
 		for k := 0; k < 16; k++ {
 			la, lo := destination(base.lat, base.lon, float64(100+60*(k/4))*g.radius, []float64{90, 270, 0, 180}[k%4])
@@ -710,6 +770,15 @@ func genRoam(rt *rapid.T, maxSteps int) RoamCase {
 		}
 		if !cs.Live && pct(rt, "redef") < 6 {
 			redefine()
+			continue
+		}
+		if pct(rt, "string") < 4 {
+			if strings {
+				g.add(RStep{Op: "setstr", Col: col, ID: id, Note: "the id now holds a string"})
+				sync(false)
+			} else {
+				excluded[findStringOrig]++
+			}
 			continue
 		}
 		if pct(rt, "scenery") < 9 {
@@ -1034,6 +1103,8 @@ func runRoam(t failer, c *ev.Collector, cs RoamCase) (info roamInfo) {
 			return []string{"DROP", keys[s.Col]}
 		case "pdel":
 			return []string{"PDEL", keys[s.Col], "*"}
+		case "setstr":
+			return []string{"SET", keys[s.Col], s.ID, "STRING", "parked"}
 		}
 		args := []string{"SET", keys[s.Col], s.ID}
 		switch {
@@ -1108,10 +1179,42 @@ func runRoam(t failer, c *ev.Collector, cs RoamCase) (info roamInfo) {
 	shapes := 0               // extended objects stored so far
 	redefined := false        // the fence was re-defined under its name at least once
 	removedRoam := false      // the roam collection was removed (and possibly re-created) after the fence was made
+	// live cases: the writes between two barriers (and their channel sentinels)
+	// travel in one segment
+	outstanding := 0
+	defer func() {
+		for ; outstanding > 0; outstanding-- {
+			if _, err := ctl.Recv(); err != nil {
+				break
+			}
+		}
+	}()
+	sentUpTo, groupSize := 0, 1
 	for n, s := range cs.Steps {
 		if n < cs.Pre {
 			continue
 		}
+		if live != nil && n >= sentUpTo {
+			end := n + 1
+			for end < len(cs.Steps) && !cs.Steps[end-1].Sync {
+				end++
+			}
+			groupSize = end - n
+			if groupSize > 1 {
+				var raw []byte
+				for k := n; k < end; k++ {
+					raw = append(raw, t38.EncodeCmd(buildArgs(k, cs.Steps[k])...)...)
+					raw = append(raw, t38.EncodeCmd("PUBLISH", syncCh, fmt.Sprintf("sync-%d", k))...)
+					outstanding += 2
+				}
+				if err := ctl.SendRaw(raw); err != nil {
+					fail("transport", err.Error())
+				}
+				info.labels["live-writes-pipelined-between-barriers"]++
+			}
+			sentUpTo = end
+		}
+		ahead := live != nil && groupSize > 1
 		if s.Op == "redef" {
 			if live != nil {
 				panic("harness: redef in a live case")
@@ -1143,7 +1246,14 @@ func runRoam(t failer, c *ev.Collector, cs RoamCase) (info roamInfo) {
 		}
 		args := buildArgs(n, s)
 		corner := 0
-		v, err := ctl.Do(args...)
+		var v t38.Value
+		var err error
+		if ahead {
+			v, err = ctl.Recv()
+			outstanding--
+		} else {
+			v, err = ctl.Do(args...)
+		}
 		if err != nil {
 			var again bool
 			if v, err, again = recvAgainIfStalled(ctl, err, startGap); again {
@@ -1157,6 +1267,10 @@ func runRoam(t failer, c *ev.Collector, cs RoamCase) (info roamInfo) {
 			fail("unexpected-error", fmt.Sprintf("step %d %s: %s", n, t38.CmdString(args), v))
 		}
 		before := len(m.cols[s.Col])
+		overString := (s.Op == "set" || s.Op == "setex") && m.strs[s.Col] != nil && m.strs[s.Col][s.ID]
+		if overString {
+			info.labels["set-geometry-over-string"]++
+		}
 		exp := m.apply(s)
 		if s.Shape != "" {
 			shapes++
@@ -1204,7 +1318,12 @@ func runRoam(t failer, c *ev.Collector, cs RoamCase) (info roamInfo) {
 		expAll = append(expAll, exp)
 		// channel: a PUBLISH sentinel after every step delimits the step's messages exactly
 		token := fmt.Sprintf("sync-%d", n)
-		v, err = ctl.Do("PUBLISH", syncCh, token)
+		if ahead {
+			v, err = ctl.Recv()
+			outstanding--
+		} else {
+			v, err = ctl.Do("PUBLISH", syncCh, token)
+		}
 		mustOK(v, err, "PUBLISH")
 		var got []rgot
 		for {
@@ -1228,6 +1347,9 @@ func runRoam(t failer, c *ev.Collector, cs RoamCase) (info roamInfo) {
 		}
 		chanAll = append(chanAll, got)
 		if k, what := compareStep(m.cs, exp, got, chanName, keys[0], roamKey, &info); k != "" {
+			if overString && strings.HasPrefix(k, "roam:unexpected-faraway") || overString && k == "roam:faraway-inside-radius" {
+				k = findStringOrig // entries measured from lat 0 lon 0, the "position" of the string
+			}
 			fail(k, fmt.Sprintf("step %d %s (%s), observer channel, fence %s: %s", n, t38.CmdString(args[2:]), s.Note, strings.Join(tok[2:], " "), what))
 		}
 		// evidence
@@ -1353,7 +1475,13 @@ func runRoam(t failer, c *ev.Collector, cs RoamCase) (info roamInfo) {
 						got = append(got, take(len(raw))...) // extras
 					}
 					if k, what := compareStep(m.cs, e, got, "", keys[0], roamKey, &info); k != "" {
-						fail(k+":live", fmt.Sprintf("step %d, observer live, fence %s: %s", n-len(livePending)+1+pi, strings.Join(tok[2:], " "), what))
+						key := k + ":live"
+						if len(livePending) > 3 {
+							// more than one write plus its barrier were in flight: the live
+							// fence evaluated a write against a later state of the collection
+							key = findLiveLate
+						}
+						fail(key, fmt.Sprintf("step %d, observer live, fence %s: %s", n-len(livePending)+1+pi, strings.Join(tok[2:], " "), what))
 					}
 				}
 				livePending = nil
@@ -1413,6 +1541,11 @@ func TestC20_Roam(t *testing.T) {
 	rapid.Check(t, func(rt *rapid.T) {
 		cs := genRoam(rt, maxSteps)
 		c.Case()
+		for id, n := range cs.excl {
+			for ; n > 0; n-- {
+				c.Excluded(id)
+			}
+		}
 		info := runRoam(rt, c, cs)
 		for l, n := range info.labels {
 			c.LabelN(l, n)
@@ -1481,6 +1614,40 @@ probes:
 	}
 	c.Case()
 	runRegress(t, c, cs, sameIDFinding)
+	// (3) fence-string-old-position-origin: an id that held a string is SET to a
+	// point far away while another object sits next to lat 0 lon 0
+	for _, same := range []bool{true, false} {
+		cs := RoamCase{SameKey: same, Pattern: "*", Radius: 5000}
+		col := 1
+		if same {
+			col = 0
+		}
+		cs.Steps = []RStep{
+			{Op: "set", Col: col, ID: "origin", Lat: 0.01, Lon: 0.01, Note: "object near lat 0 lon 0"},
+			{Op: "setstr", Col: 0, ID: "s", Note: "string"},
+			{Op: "set", Col: 0, ID: "s", Lat: 40, Lon: 40, Note: "geometry over the string: no previous position"},
+		}
+		c.Case()
+		if !runRegress(t, c, cs, findStringOrig) {
+			break
+		}
+	}
+	// (4) live-roam-evaluated-late: two SETs 50 m apart in one segment; the first
+	// has no neighbour when it is written, so only the second may be announced
+	{
+		cs := RoamCase{SameKey: true, Pattern: "*", Radius: 1000, Live: true}
+		for i := 0; i < 12; i++ {
+			lat := 10 + float64(i)
+			la, lo := destination(lat, 10, 50, 90)
+			cs.Steps = append(cs.Steps,
+				RStep{Op: "set", Col: 0, ID: fmt.Sprintf("a%d", i), Lat: lat, Lon: 10, Note: "first of a pipelined pair"},
+				RStep{Op: "set", Col: 0, ID: fmt.Sprintf("b%d", i), Lat: round8(la), Lon: round8(lo), Note: "second of a pipelined pair, 50 m away"},
+				RStep{Op: "set", Col: 0, ID: probeID, Lat: -40, Lon: -100, Note: "barrier probe"},
+				RStep{Op: "del", Col: 0, ID: probeID, Sync: true, Note: "barrier"})
+		}
+		c.Case()
+		runRegress(t, c, cs, findLiveLate)
+	}
 }
 
 // regressFailer turns a failure of the fixed input into a Violation / Known
